@@ -23,7 +23,7 @@ use domain::base::iana::{Class, Rcode};
 use domain::base::message_builder::MessageBuilder;
 use domain::base::opt::keepalive::IdleTimeout;
 use domain::base::opt::AllOptData;
-use domain::base::{Message, Name, Question, Rtype, Ttl};
+use domain::base::{Message, Name, Question, Rtype, ToName, Ttl};
 use domain::net::client::protocol::{AsyncConnect, AsyncDgramRecv, AsyncDgramSend};
 use domain::net::client::request::{Error, GetResponse, RequestMessage, RequestMessageMulti, SendRequest};
 use domain::net::client::{dgram, stream};
@@ -208,7 +208,12 @@ pub fn build_peer_msg(f: &Value) -> Vec<u8> {
         h.set_id(num(f, "id") as u16);
         h.set_qr(flag(f, "qr"));
         h.set_tc(flag(f, "tc"));
-        h.set_rcode(if num(f, "rcode") == 0 { Rcode::NOERROR } else { Rcode::SERVFAIL });
+        h.set_rcode(match num(f, "rcode") {
+            0 => Rcode::NOERROR,
+            3 => Rcode::NXDOMAIN,
+            5 => Rcode::REFUSED,
+            _ => Rcode::SERVFAIL,
+        });
     }
     let mut qb = mb.question();
     if q > 0 {
@@ -264,7 +269,7 @@ pub fn abstract_msg(bytes: &[u8]) -> Value {
                 "id": m.header().id(),
                 "qr": m.header().qr(),
                 "q": q_of(m),
-                "rcode": if m.header().rcode() == Rcode::NOERROR { 0 } else { 2 },
+                "rcode": m.header().rcode().to_int(),
                 "body": c.ancount() + c.nscount() + c.arcount() > 0,
                 "tc": m.header().tc(),
                 "ka": match ka_of(m) { Some(v) if v >= 0 => v, _ => -1 },
@@ -811,4 +816,115 @@ pub fn id_of_request(peer: &StreamPeer, q: u64) -> Option<u64> {
 pub fn times_written(peer: &StreamPeer, q: u64) -> usize {
     let (frames, _) = peer.frames();
     frames.iter().map(|f| abstract_request(f)).filter(|a| a["q"].as_u64() == Some(q)).count()
+}
+
+//------------ scripted upstreams (redundant, load_balancer) -----------------
+
+pub struct UpPending {
+    pub u: usize,
+    pub r: u64,
+    pub tx: tokio::sync::oneshot::Sender<String>,
+}
+
+#[derive(Default)]
+pub struct UpShared {
+    pub pending: Vec<UpPending>,
+    /// (upstream, request) in the order the upstreams were asked
+    pub asked: Vec<(usize, u64)>,
+}
+
+/// A sub-transport whose responses the harness hands out: "answer",
+/// "servfail", "refused" (replies built from the request: same ID and
+/// question, an A record 192.0.2.<u> naming the upstream) or "error".
+pub struct MockUpstream {
+    pub u: usize,
+    pub shared: Arc<Mutex<UpShared>>,
+    pub act: Activity,
+}
+
+pub struct MockResp {
+    rx: tokio::sync::oneshot::Receiver<String>,
+    req: RequestMessage<Vec<u8>>,
+    u: usize,
+    act: Activity,
+}
+
+impl std::fmt::Debug for MockResp {
+    fn fmt(&self, f: &mut std::fmt::Formatter<'_>) -> std::fmt::Result {
+        f.write_str("MockResp")
+    }
+}
+
+fn upstream_reply(req: &RequestMessage<Vec<u8>>, u: usize, kind: &str) -> Result<Message<Bytes>, Error> {
+    use domain::net::client::request::ComposeRequest;
+    let rcode = match kind {
+        "answer" => Rcode::NOERROR,
+        "servfail" => Rcode::SERVFAIL,
+        "refused" => Rcode::REFUSED,
+        _ => return Err(Error::StreamReadTimeout),
+    };
+    let qmsg = req.to_message()?;
+    let mut ab = MessageBuilder::new_vec().start_answer(&qmsg, rcode).map_err(|_| Error::MessageBuilderPushError)?;
+    let owner = qmsg.first_question().map(|q| q.qname().to_name::<Vec<u8>>()).unwrap_or_else(|| qname(0));
+    ab.push((owner, Class::IN, Ttl::from_secs(60), A::new([192, 0, 2, u as u8].into())))
+        .map_err(|_| Error::MessageBuilderPushError)?;
+    Message::from_octets(Bytes::from(ab.finish())).map_err(|_| Error::ShortMessage)
+}
+
+impl GetResponse for MockResp {
+    fn get_response(
+        &mut self,
+    ) -> Pin<Box<dyn Future<Output = Result<Message<Bytes>, Error>> + Send + Sync + '_>> {
+        let act = self.act.clone();
+        Box::pin(counted(
+            async move {
+                match (&mut self.rx).await {
+                    Ok(kind) => upstream_reply(&self.req, self.u, &kind),
+                    Err(_) => Err(Error::ConnectionClosed),
+                }
+            },
+            &act,
+        ))
+    }
+}
+
+impl SendRequest<RequestMessage<Vec<u8>>> for MockUpstream {
+    fn send_request(&self, req: RequestMessage<Vec<u8>>) -> Box<dyn GetResponse + Send + Sync> {
+        use domain::net::client::request::ComposeRequest;
+        self.act.hit();
+        let r = req.to_message().map(|m| q_of(m.for_slice()) as u64).unwrap_or(0);
+        let (tx, rx) = tokio::sync::oneshot::channel();
+        let mut g = self.shared.lock().unwrap();
+        g.asked.push((self.u, r));
+        g.pending.push(UpPending { u: self.u, r, tx });
+        Box::new(MockResp { rx, req, u: self.u, act: self.act.clone() })
+    }
+}
+
+/// What a balancer handed to the caller: (ok, src upstream, kind, own).
+pub fn balance_outcome(res: &Result<Message<Bytes>, Error>, r: u64) -> Value {
+    match res {
+        Ok(m) => {
+            let src = m
+                .answer()
+                .ok()
+                .and_then(|mut a| a.next())
+                .and_then(|rr| rr.ok())
+                .and_then(|rr| rr.into_record::<A>().ok().flatten())
+                .map(|rec| rec.data().addr().octets()[3] as u64)
+                .unwrap_or(0);
+            let kind = match m.header().rcode() {
+                Rcode::NOERROR => "answer",
+                Rcode::SERVFAIL => "servfail",
+                Rcode::REFUSED => "refused",
+                _ => "other",
+            };
+            // the property: same ID and same question.  (The QR bit is logged
+            // but not judged: load_balancer's synthesized SERVFAIL copies the
+            // request header and leaves QR clear.)
+            let own = q_of(m.for_slice()) == r as i64 && m.header().id() as u64 == 100 + r;
+            json!({"ok": true, "src": src, "kind": kind, "own": own, "qr": m.header().qr()})
+        }
+        Err(_) => json!({"ok": false, "src": 0, "kind": "error", "own": true}),
+    }
 }
